@@ -332,12 +332,425 @@ def _derive():
         emit(f'{short}{fam}Dispatch', {'tt': 'Nat'}, lambda wrapper=wrapper, target=target: dispatch(wrapper, target),
              ret='Nat')
 
+    _derive_r4(emit)
+
     text = '\n'.join(out)
     if not (os.path.exists(DERIVED) and open(DERIVED).read() == text):
         with open(DERIVED + '.tmp', 'w') as f:
             f.write(text)
         os.replace(DERIVED + '.tmp', DERIVED)
     return specs
+
+
+# =====================================================================================
+# Round 4: state that survives a call.
+#
+# Sessions (one Result queried repeatedly, engines/C06.py op 'session') rely on two facts about the
+# anchored code; both are read off the current source text every run and are proof obligations
+# (`Rsa.Props.C06.input_write_leaves`, `no_hidden_state_leaves`):
+#
+#   *InputWrites   number of statements that store IN PLACE into an array that may alias the caller's
+#                  data (`x -= ..`, `x[..] = ..`, `out=x`, `x.sort()`, `np.fill_diagonal(x, ..)`, a
+#                  helper that does so with an alias it is handed, `self.attr = ..` outside
+#                  `__init__`): a syntactic may-alias analysis (rebinding by a numpy reduction /
+#                  arithmetic makes a name fresh; views, `np.asarray`, slices, `_per_sample` keep it
+#                  an alias; both arms of an `if` and zero iterations of a loop are joined).
+#                  testInputWrites      all_tests pair_tests zero_tests nc_tests t_tests t_test_0
+#                                       t_test_nc bootstrap_pair_tests ranksum_* _per_sample
+#                  extractInputWrites   extract_variances _correct_1d _dual_bootstrap
+#                  errorbarInputWrites  util get_errorbars
+#                  resultInputWrites    every Result accessor (root `self`; follows the wrappers it
+#                                       calls), Result.__init__ (roots: its array arguments),
+#                                       to_dict, result_from_dict (root: the dict)
+#   moduleStateCells   places where a value could survive a call outside the arguments: decorators
+#                  (lru_cache …), `global` / `nonlocal`, module-level statements other than imports /
+#                  defs / the TYPE_CHECKING block, class-level assignments, mutable default arguments,
+#                  attribute stores on function objects — in util/inference_util.py,
+#                  inference/result.py and in every rsatoolbox module a function of the anchored set
+#                  imports a callee from (util/matrix.py, util/rdm_utils.py); a callee that cannot be
+#                  resolved to a plain module-level function is underivable
+#   resultExtraAttrs   attributes of `self` stored or read anywhere in class Result that are not the
+#                  documented fields / methods (a per-object cache needs one)
+# Everything fails closed (`__underivable__`).
+# =====================================================================================
+
+_VIEW_FUNCS = {'np.asarray', 'np.asanyarray', 'np.ascontiguousarray', 'np.asfortranarray', 'np.atleast_1d',
+               'np.atleast_2d', 'np.atleast_3d', 'np.ravel', 'np.reshape', 'np.squeeze', 'np.transpose',
+               'np.swapaxes', 'np.moveaxis', 'np.expand_dims', 'np.broadcast_to', 'np.nan_to_num', 'np.real',
+               'np.diagonal', 'np.diag', 'np.triu', 'np.tril', 'np.require', 'np.array', 'numpy.asarray',
+               'numpy.array', 'np.einsum', 'np.rollaxis', 'np.flip', 'np.broadcast_arrays',
+               'enumerate', 'zip', 'reversed', 'iter', 'next'}
+_COPY_METHODS = {'copy', 'flatten', 'tolist', 'mean', 'sum', 'std', 'var', 'min', 'max', 'any', 'all', 'dot',
+                 'item', 'argsort', 'nonzero', 'lower', 'upper', 'keys', 'astype_copy', 'to_dict'}
+_MUT_METHODS = {'sort', 'fill', 'put', 'itemset', 'partition', 'resize', 'setfield', 'setflags', 'byteswap',
+                '__setitem__', '__iadd__', '__isub__', '__imul__', '__itruediv__', 'append', 'update', 'pop',
+                'clear', 'extend', 'insert', 'remove', 'setdefault', '__setattr__', 'popitem'}
+_MUT_FUNCS = {'np.copyto', 'np.put', 'np.place', 'np.putmask', 'np.fill_diagonal', 'np.put_along_axis',
+              'setattr', 'delattr', 'np.random.shuffle'}
+
+
+class _Writes:
+    """count in-place writes into objects that may alias the `roots` of a function of the anchored set.
+    Functions: module-level functions of util/inference_util.py and inference/result.py by bare name,
+    methods of class Result as `self.<name>`."""
+
+    def __init__(self):
+        self.funcs = {}
+        for path in (_IU, _RES):
+            for n in _tree(path).body:
+                if isinstance(n, ast.FunctionDef):
+                    self.funcs[n.name] = n
+                elif isinstance(n, ast.ClassDef) and n.name == 'Result':
+                    for mth in n.body:
+                        if isinstance(mth, ast.FunctionDef):
+                            self.funcs['self.' + mth.name] = mth
+        self.stack = []
+
+    def callee(self, f, env):
+        """key in self.funcs of a call target that is followed, else None"""
+        if isinstance(f, ast.Name) and f.id in self.funcs:
+            return f.id
+        if isinstance(f, ast.Attribute) and isinstance(f.value, ast.Name) and f.value.id == 'self' \
+                and 'self.' + f.attr in self.funcs:
+            return 'self.' + f.attr
+        return None
+
+    def roots_of(self, key, node, env):
+        fn = self.funcs[key]
+        params = [a.arg for a in fn.args.args]
+        roots = []
+        if key.startswith('self.'):
+            if 'self' in env:
+                roots.append('self')
+            params = params[1:]
+        roots += [params[i] for i, a in enumerate(node.args) if i < len(params) and self.alias(a, env)]
+        roots += [k.arg for k in node.keywords if k.arg and self.alias(k.value, env)]
+        if any(isinstance(a, ast.Starred) for a in node.args) or any(k.arg is None for k in node.keywords):
+            raise Underivable('star arguments')
+        return roots
+
+    def run(self, key, roots):
+        if key not in self.funcs:
+            raise Underivable(f'function {key} not found')
+        if key in self.stack or len(self.stack) > 8:
+            raise Underivable(f'recursion through {key}')
+        self.stack.append(key)
+        env = set(roots)
+        writes, ret = self.block(self.funcs[key].body, env)
+        self.stack.pop()
+        return writes, ret
+
+    def alias(self, e, env):
+        if isinstance(e, ast.Name):
+            return e.id in env
+        if isinstance(e, (ast.Attribute, ast.Subscript, ast.Starred)):
+            return self.alias(e.value, env)
+        if isinstance(e, ast.IfExp):
+            return self.alias(e.body, env) or self.alias(e.orelse, env)
+        if isinstance(e, ast.BoolOp):
+            return any(self.alias(v, env) for v in e.values)
+        if isinstance(e, (ast.Tuple, ast.List)):
+            return any(self.alias(v, env) for v in e.elts)
+        if isinstance(e, ast.Dict):
+            return any(v is not None and self.alias(v, env) for v in e.values)
+        if isinstance(e, ast.NamedExpr):
+            return self.alias(e.value, env)
+        if isinstance(e, ast.Call):
+            f = e.func
+            name = ast.unparse(f)
+            args = list(e.args) + [k.value for k in e.keywords]
+            key = self.callee(f, env)
+            if key is not None:
+                roots = self.roots_of(key, e, env)
+                return self.run(key, roots)[1] if roots else False
+            if isinstance(f, ast.Attribute) and self.alias(f.value, env):
+                return f.attr not in _COPY_METHODS   # any other method of an alias may return a view
+            if name in _VIEW_FUNCS:
+                if name in ('np.array', 'numpy.array') and not any(
+                        k.arg == 'copy' and ast.unparse(k.value) != 'True' for k in e.keywords):
+                    return False                # np.array copies by default
+                return any(self.alias(a, env) for a in args)
+            return False                        # numpy reductions / arithmetic helpers / constructors: new objects
+        return False                            # arithmetic, comparisons, comprehensions, constants: new objects
+
+    def scan(self, e, env):
+        """writes caused by evaluating an expression"""
+        w = 0
+        env = set(env)
+        for node in ast.walk(e):
+            if isinstance(node, (ast.ListComp, ast.SetComp, ast.GeneratorExp, ast.DictComp)):
+                for g in node.generators:
+                    if self.alias(g.iter, env):
+                        env |= {n.id for n in ast.walk(g.target) if isinstance(n, ast.Name)}
+        for node in ast.walk(e):
+            if not isinstance(node, ast.Call):
+                continue
+            f = node.func
+            name = ast.unparse(f)
+            for k in node.keywords:
+                if k.arg == 'out' and self.alias(k.value, env):
+                    w += 1
+                if k.arg == 'copy' and ast.unparse(k.value) == 'False' and name not in _VIEW_FUNCS \
+                        and not (isinstance(f, ast.Attribute) and f.attr == 'astype') \
+                        and any(self.alias(a, env) for a in node.args):
+                    w += 1
+            if name in _MUT_FUNCS and node.args and self.alias(node.args[0], env):
+                w += 1
+            if isinstance(f, ast.Attribute) and f.attr in _MUT_METHODS and self.alias(f.value, env):
+                w += 1
+            key = self.callee(f, env)
+            if key is not None:
+                roots = self.roots_of(key, node, env)
+                if roots:
+                    w += self.run(key, roots)[0]
+        return w
+
+    def bind(self, target, is_alias, env):
+        w = 0
+        if isinstance(target, ast.Name):
+            (env.add if is_alias else env.discard)(target.id)
+        elif isinstance(target, (ast.Tuple, ast.List)):
+            for t in target.elts:
+                w += self.bind(t, is_alias, env)
+        elif isinstance(target, (ast.Subscript, ast.Attribute, ast.Starred)):
+            if self.alias(target.value, env):
+                w += 1                          # x[...] = ..., x.attr = ... on the caller's data
+        return w
+
+    def block(self, body, env):
+        w, ret = 0, False
+        for st in body:
+            if isinstance(st, ast.Assign):
+                w += self.scan(st.value, env)
+                a = self.alias(st.value, env)
+                for t in st.targets:
+                    w += self.bind(t, a, env)
+            elif isinstance(st, ast.AnnAssign):
+                if st.value is not None:
+                    w += self.scan(st.value, env)
+                    w += self.bind(st.target, self.alias(st.value, env), env)
+            elif isinstance(st, ast.AugAssign):
+                w += self.scan(st.value, env)
+                t = st.target
+                if self.alias(t if isinstance(t, ast.Name) else t.value, env):
+                    w += 1                      # x -= ..., x[...] /= ... on the caller's data
+            elif isinstance(st, ast.Return):
+                if st.value is not None:
+                    w += self.scan(st.value, env)
+                    ret = ret or self.alias(st.value, env)
+            elif isinstance(st, (ast.Expr, ast.Assert, ast.Raise)):
+                for e in ast.iter_child_nodes(st):
+                    if isinstance(e, ast.expr):
+                        w += self.scan(e, env)
+            elif isinstance(st, ast.If):
+                w += self.scan(st.test, env)
+                e1, e2 = set(env), set(env)
+                w1, r1 = self.block(st.body, e1)
+                w2, r2 = self.block(st.orelse, e2)
+                env.clear()
+                env |= e1 | e2
+                w, ret = w + w1 + w2, ret or r1 or r2
+            elif isinstance(st, (ast.For, ast.While)):
+                before = set(env)
+                if isinstance(st, ast.For):
+                    w += self.scan(st.iter, env)
+                    self.bind(st.target, self.alias(st.iter, env), env)
+                else:
+                    w += self.scan(st.test, env)
+                self.block(st.body, env)                     # first pass: which names become aliases
+                env |= before                                # the loop may run zero times
+                w1, r1 = self.block(st.body, env)            # second pass counts with the loop-carried aliases
+                env |= before
+                w2, r2 = self.block(st.orelse, env)
+                w, ret = w + w1 + w2, ret or r1 or r2
+            elif isinstance(st, (ast.With, ast.Try)):
+                inner = list(st.body) + [x for h in getattr(st, 'handlers', []) for x in h.body] \
+                    + list(getattr(st, 'orelse', [])) + list(getattr(st, 'finalbody', []))
+                for item in getattr(st, 'items', []):
+                    w += self.scan(item.context_expr, env)
+                before = set(env)
+                w1, r1 = self.block(inner, env)
+                env |= before                                # an exception may skip any rebinding
+                w, ret = w + w1, ret or r1
+            elif isinstance(st, (ast.Pass, ast.Import, ast.ImportFrom, ast.Break, ast.Continue)):
+                pass
+            elif isinstance(st, (ast.Global, ast.Nonlocal)):
+                w += 1                                       # a name that outlives the call is written
+            elif isinstance(st, ast.Delete):
+                w += sum(1 for t in st.targets if not isinstance(t, ast.Name) and self.alias(t.value, env))
+            else:
+                raise Underivable(f'statement {type(st).__name__} not understood')
+        return w, ret
+
+
+_TEST_FUNCS = ['all_tests', 'pair_tests', 'zero_tests', 'nc_tests', 't_tests', 't_test_0', 't_test_nc',
+               'bootstrap_pair_tests', 'ranksum_pair_test', 'ranksum_value_test', '_per_sample']
+_EXTRACT_FUNCS = ['extract_variances', '_correct_1d', '_dual_bootstrap']
+_RESULT_METHODS = ['test_all', 'test_pairwise', 'test_zero', 'test_noise', 'get_means', 'get_sem', 'get_ci',
+                   'get_errorbars', 'get_model_var', 'get_noise_ceil', 'to_dict', 'summary']
+_RESULT_FIELDS = ['models', 'n_model', 'evaluations', 'method', 'cv_method', 'noise_ceiling', 'variances', 'dof',
+                  'fitter', 'n_bootstraps', 'n_rdm', 'n_pattern', 'model_var', 'diff_var', 'noise_ceil_var']
+
+
+def _all_params(fn):
+    a = fn.args
+    if a.vararg or a.kwarg:
+        raise Underivable(f'{fn.name}: *args / **kwargs')
+    return [x.arg for x in a.posonlyargs + a.args + a.kwonlyargs]
+
+
+def _writes_of(keys, self_root=False):
+    a = _Writes()
+    total = 0
+    for k in keys:
+        if k not in a.funcs:
+            raise Underivable(f'function {k} not found')
+        params = _all_params(a.funcs[k])
+        roots = ['self'] if self_root else [p for p in params if p != 'self']
+        total += a.run(k, roots)[0]
+    return str(total)
+
+
+def _result_writes():
+    total = int(_writes_of(['self.' + m for m in _RESULT_METHODS], self_root=True))
+    total += int(_writes_of(['self.__init__']))         # roots: the arguments (not the new object)
+    total += int(_writes_of(['result_from_dict']))
+    return str(total)
+
+
+_STATELESS_DECOS = {'staticmethod', 'classmethod', 'property'}
+
+
+def _module_cells(path, anchored_only=None):
+    """places of one module where a value could survive a call"""
+    tree = _tree(path)
+    cells = 0
+    for k, st in enumerate(tree.body):
+        if isinstance(st, (ast.Import, ast.ImportFrom, ast.FunctionDef, ast.ClassDef)):
+            continue
+        if isinstance(st, ast.Expr) and isinstance(st.value, ast.Constant) and isinstance(st.value.value, str):
+            continue                                        # docstring / stray string
+        if isinstance(st, ast.If) and ast.unparse(st.test) in ('TYPE_CHECKING', 'typing.TYPE_CHECKING') \
+                and not st.orelse and all(isinstance(x, (ast.Import, ast.ImportFrom)) for x in st.body):
+            continue
+        cells += 1                                          # a module-level statement that creates state
+    fnames = {n.name for n in tree.body if isinstance(n, ast.FunctionDef)}
+    for node in ast.walk(tree):
+        if isinstance(node, (ast.FunctionDef, ast.AsyncFunctionDef, ast.ClassDef)):
+            cells += sum(1 for d in node.decorator_list if ast.unparse(d) not in _STATELESS_DECOS)
+        if isinstance(node, (ast.FunctionDef, ast.AsyncFunctionDef, ast.Lambda)):
+            for d in list(node.args.defaults) + [x for x in node.args.kw_defaults if x is not None]:
+                if not isinstance(d, (ast.Constant, ast.Name, ast.Attribute, ast.UnaryOp, ast.Tuple)):
+                    cells += 1                              # mutable / computed default argument
+        if isinstance(node, (ast.Global, ast.Nonlocal)):
+            cells += 1
+        if isinstance(node, ast.ClassDef):
+            for st in node.body:
+                if isinstance(st, ast.FunctionDef):
+                    continue
+                if isinstance(st, ast.Expr) and isinstance(st.value, ast.Constant):
+                    continue
+                cells += 1                                  # class-level attribute: shared by all objects
+        if isinstance(node, (ast.Assign, ast.AugAssign, ast.AnnAssign)):
+            targets = node.targets if isinstance(node, ast.Assign) else [node.target]
+            for t in targets:
+                base = t
+                while isinstance(base, (ast.Attribute, ast.Subscript)):
+                    base = base.value
+                if isinstance(t, (ast.Attribute, ast.Subscript)) and isinstance(base, ast.Name) \
+                        and base.id in fnames:
+                    cells += 1                              # store on a function object
+    return cells
+
+
+_BUILTIN_CALLS = {'len', 'range', 'enumerate', 'float', 'int', 'str', 'max', 'min', 'abs', 'isinstance', 'list',
+                  'tuple', 'zip', 'sum', 'bool', 'ValueError', 'TypeError', 'AssertionError', 'print', 'sorted',
+                  'any', 'all', 'round', 'dict', 'set', 'repr', 'type', 'getattr', 'hasattr', 'reversed', 'map'}
+
+
+def _module_state_cells():
+    """util/inference_util.py and inference/result.py, plus every rsatoolbox module a function of the
+    anchored set takes a callee from"""
+    cells = _module_cells(_IU) + _module_cells(_RES)
+    ext_modules = set()
+    for path, keys in ((_IU, _TEST_FUNCS + _EXTRACT_FUNCS + ['get_errorbars']), (_RES, None)):
+        tree = _tree(path)
+        imported = {}
+        for st in ast.walk(tree):
+            if isinstance(st, ast.ImportFrom):
+                for al in st.names:
+                    imported[al.asname or al.name] = (st.level, st.module or '', al.name)
+        own = {n.name for n in tree.body if isinstance(n, (ast.FunctionDef, ast.ClassDef))}
+        if keys is None:
+            fns = [n for n in tree.body if isinstance(n, ast.FunctionDef) and n.name == 'result_from_dict']
+            fns += [m for n in tree.body if isinstance(n, ast.ClassDef) and n.name == 'Result'
+                    for m in n.body if isinstance(m, ast.FunctionDef)
+                    and m.name in _RESULT_METHODS + ['__init__']]
+        else:
+            fns = [_func(path, k) for k in keys]
+        for fn in fns:
+            local = set(_all_params(fn)) | {n.id for n in ast.walk(fn) if isinstance(n, ast.Name)
+                                            and isinstance(n.ctx, ast.Store)}
+            for node in ast.walk(fn):
+                if not (isinstance(node, ast.Call) and isinstance(node.func, ast.Name)):
+                    continue
+                nm = node.func.id
+                if nm in _BUILTIN_CALLS or nm in own or nm in local:
+                    continue
+                if nm not in imported:
+                    raise Underivable(f'{fn.name}: callee {nm} is neither local, imported nor a builtin')
+                level, module, orig = imported[nm]
+                inside = level > 0 or module.split('.')[0] == 'rsatoolbox'
+                if not inside:
+                    continue                                # scipy / numpy: trusted libraries
+                if level > 0:
+                    base = os.path.dirname(path)
+                    for _ in range(level - 1):
+                        base = os.path.dirname(base)
+                    mod_path = os.path.join(base, *module.split('.')) + '.py' if module else None
+                else:
+                    mod_path = os.path.join(*module.split('.')[1:]) + '.py'
+                if mod_path is None or not os.path.exists(os.path.join(_SRC, mod_path)):
+                    raise Underivable(f'{fn.name}: callee {nm} comes from {module!r}, not a plain module')
+                target = [n for n in _tree(mod_path).body if isinstance(n, ast.FunctionDef) and n.name == orig]
+                if len(target) != 1:
+                    raise Underivable(f'{fn.name}: callee {nm} is not a plain function of {mod_path}')
+                ext_modules.add(mod_path)
+    for mod_path in sorted(ext_modules - {_IU, _RES}):
+        cells += _module_cells(mod_path)
+    return str(cells)
+
+
+def _result_extra_attrs():
+    cls = [n for n in _tree(_RES).body if isinstance(n, ast.ClassDef) and n.name == 'Result']
+    if len(cls) != 1:
+        raise Underivable('class Result not found')
+    methods = {m.name for m in cls[0].body if isinstance(m, ast.FunctionDef)}
+    extra = set()
+    for node in ast.walk(cls[0]):
+        if isinstance(node, ast.Attribute) and isinstance(node.value, ast.Name) and node.value.id == 'self':
+            if node.attr not in _RESULT_FIELDS and node.attr not in methods:
+                extra.add(node.attr)
+        if isinstance(node, ast.Call) and ast.unparse(node.func) in ('setattr', 'getattr', 'vars', 'object.__setattr__'):
+            extra.add('dynamic:' + ast.unparse(node.func))
+        if isinstance(node, ast.Attribute) and node.attr == '__dict__':
+            extra.add('dynamic:__dict__')
+    # result_from_dict restores exactly the three derived variances on the new object
+    rfd = _func(_RES, 'result_from_dict')
+    for node in ast.walk(rfd):
+        if isinstance(node, ast.Attribute) and isinstance(node.ctx, ast.Store) \
+                and node.attr not in ('model_var', 'diff_var', 'noise_ceil_var'):
+            extra.add('result_from_dict:' + node.attr)
+    return str(len(extra))
+
+
+def _derive_r4(emit):
+    emit('testInputWrites', {}, lambda: _writes_of(_TEST_FUNCS), ret='Nat')
+    emit('extractInputWrites', {}, lambda: _writes_of(_EXTRACT_FUNCS), ret='Nat')
+    emit('errorbarInputWrites', {}, lambda: _writes_of(['get_errorbars']), ret='Nat')
+    emit('resultInputWrites', {}, _result_writes, ret='Nat')
+    emit('moduleStateCells', {}, _module_state_cells, ret='Nat')
+    emit('resultExtraAttrs', {}, _result_extra_attrs, ret='Nat')
 
 
 _CDF_ABS = {'stats.t.cdf(np.abs(t), dof)': 'cdf_abs_t'}
